@@ -208,3 +208,90 @@ def check_blockvars(run, n, name='correspondence:c03.blockvars'):
     run.cov['blockvars_cases'] = n
     run.oblige(name, 'correspondence', not dis, json.dumps(dis[:3])[:1500] if dis else '')
     return dis
+
+
+# ------------------------------------------------------------------------------------------------
+# checker on the REAL annotations: closures keep their variables live out of a block
+# ------------------------------------------------------------------------------------------------
+_NEXT_OK = ('Assign', 'AugAssign', 'Expr', 'Return', 'If', 'While', 'For', 'Try')
+
+
+def _contains(x, kind):
+    if isinstance(x, list):
+        if x and x[0] == kind:
+            return True
+        return any(_contains(e, kind) for e in x)
+    return False
+
+
+def closure_liveout_violations(before, annos):
+    """On the tree + annotation table the ControlFlow pass receives: for every if/while/for statement S that is followed by
+    a statement T in the same block, and every local function g defined earlier in the same or an enclosing block of the same
+    function (so its definition reaches T and g can be called after S -- by ANY name: an alias, another local function, a
+    container element, a default argument, the caller), every variable g reads from its closure (read minus its own locals;
+    names it declares nonlocal/global included) must be in LIVE_VARS_OUT(S): liveness adds the closure of every reaching
+    function definition to the live-in set of every statement.  Blocks containing `raise` are skipped (they may not reach T).
+    Returns (number of (S, g, x) triples checked, list of violations)."""
+    tree = _norm(before)
+    tab = {}
+    for a in _norm(annos):
+        tab[(a[0], a[1])] = a[2]
+
+    def field(sc, name):
+        for f in sc[1:]:
+            if isinstance(f, list) and f and f[0] == name:
+                return set(f[1:])
+        return set()
+
+    def closure_reads(fid):
+        sc = tab.get((fid, 'ARGS_AND_BODY_SCOPE'))
+        if not isinstance(sc, list):
+            return set()
+        own = field(sc, 'bound') - field(sc, 'nonlocals') - field(sc, 'globals')
+        return {x for x in field(sc, 'read') - own if '.' not in x and '[' not in x}
+
+    checked, bad = [0], []
+
+    def blocks_of(s):
+        k = s[0]
+        if k in ('If', 'While'):
+            return [s[3], s[4]]
+        if k == 'For':
+            return [s[4], s[5]]
+        if k == 'With':
+            return [s[3]]
+        if k == 'Try':
+            return [s[2], s[3], s[4], s[5]]
+        if k == 'ExceptHandler':
+            return [s[4]]
+        if k == 'ClassDef':
+            return [s[5]]
+        if k == 'OtherStmt':
+            return [s[4]]
+        return []
+
+    def walk(stmts, defs):
+        defs = list(defs)
+        for k, s in enumerate(stmts):
+            kind = s[0]
+            if kind in ('If', 'While', 'For') and k + 1 < len(stmts) and stmts[k + 1][0] in _NEXT_OK and defs \
+                    and not _contains(s, 'Raise') and (kind, s[1]) and (s[1], 'skip') not in tab:
+                lo = tab.get((s[1], 'LIVE_VARS_OUT'))
+                if isinstance(lo, list):
+                    lo = set(lo)
+                    for gid, gname in defs:
+                        for x in sorted(closure_reads(gid)):
+                            checked[0] += 1
+                            if x not in lo:
+                                bad.append({'block': kind, 'block_id': s[1], 'function': gname, 'variable': x,
+                                            'LIVE_VARS_OUT': sorted(lo)[:40]})
+            if kind == 'FunctionDef':
+                walk(s[4], [])                 # a nested function has its own flow graph
+                defs.append((s[1], s[2]))
+            else:
+                for b in blocks_of(s):
+                    walk(b, defs)
+
+    if tree and tree[0] == 'FunctionDef':
+        walk(tree[4], [])
+    return checked[0], bad
